@@ -114,7 +114,7 @@ def build(ctx, case):
 
     def integ():
         if r.random() < 0.35:
-            return ("cvode", r.randint(1, 5), r.choice([100, 300, 1000]), r.choice([0, 0, 500, 2000]))
+            return ("cvode", r.randint(1, 5), r.choice([10, 30, 100, 300, 1000]), r.choice([0, 2000, 5000]))      # few steps per CVode call exercise the restart loop of run_reactions()
         order = r.choice([1, 2, 3, 6])
         if tol <= 1e-10 and order < 3:
             order = r.choice([3, 6])
